@@ -1,6 +1,7 @@
 """C02 — no holder commitment is both signed for broadcast and revoked."""
 import lib
 from props import chan_common
+from props.chan_common import TIE, TRUST
 
 MANIFEST = dict(
     text="Coq theorems C02_signed_and_revoked_disjoint (every disclosed number is strictly below every number signed for "
@@ -8,16 +9,19 @@ MANIFEST = dict(
          "(after a holder signature no request discloses a secret that was not disclosed before), from the same invariant as C01 "
          "plus 'everything obtainable has been disclosed'.  Correspondence and monitor as for C01; in the multi-channel "
          "domain (where the revocation's payment re-check can fail) refused revocations are retried with the same number and "
-         "a signer restored from a copy of the store after every revocation reply must refuse to sign what was revoked.",
+         "a signer restored from a copy of the store after every revocation reply must refuse to sign what was revoked." + TIE +
+         "C02_holder_sign_guard_is_source (the guard of do_sign_holder is Validator::get_current_holder_commitment_info: n+1 = "
+         "next_holder_commit_num or policy-other, a panic without a current commitment, else the current content).",
     design="§4 C02",
-    note=lib.TB + "Same modelling assumptions as C01.  The pre-repair revoke (no policy-revoke-not-closed check) is kept as "
+    note=lib.TB + TRUST + "Same modelling assumptions as C01.  The pre-repair revoke (no policy-revoke-not-closed check) is kept as "
          "C02_old_revoke_refuted.",
     technique="Coq proof (state-machine invariant by induction over request histories) + vm_compute correspondence with the Rust implementation",
 )
 
 
 def run(res):
-    chan_common.run(res, "C02.v", ["C02_signed_and_revoked_disjoint", "C02_frozen_after_signature", "C02_nonvacuous"], "C02")
+    chan_common.run_tied(res, "C02.v", ["C02_signed_and_revoked_disjoint", "C02_frozen_after_signature", "C02_nonvacuous",
+                                        "C02_holder_sign_guard_is_source"], "C02", "C02_holder_sign_guard_is_source")
     # the revocation's node-wide payment re-check (the model's [pay_ok] input) can only fail with several channels:
     # the multi-channel domain retries refused revocations with the same number, and after every revocation reply a
     # signer restored from a copy of the store is asked to sign the commitments whose secrets went out (and all
